@@ -44,7 +44,7 @@ StartShapeOK(e) ==
 MapVerdict(e) ==
     LET n == e.n
         items == e.items IN
-    IF ~(n \in Orders /\ ValidSpec(n, items)) THEN <<"InDomain", -1>>
+    IF ~(n \in Orders /\ ValidSpec(n, items) /\ e.form \in CallForms) THEN <<"InDomain", -1>>
     ELSE IF ~VcShapeOK(e) THEN <<"Malformed", -1>>
     ELSE IF Rejected(n, items) THEN
          \* two constraints on one mode: an error, from the validator and from the decomposition
